@@ -16,11 +16,23 @@ TEXT = {
          'Bounded: haystack <= 4 bytes, needle <= 3 bytes. find() over view/pointer needles uses fixed-size buffers (reads past the view are caught only if they can change the result).'),
  'C13': ('every DAryHeap / DAryAddressableIntHeap operation enforced from an arbitrary well-formed heap (heap order + handles reflect exactly the contents), membership by ghost key, multiset by ghost value',
          'Bounded: heap size <= 5 (6 in thorough), key universe 6 (8). RadixHeap container operations and sanity_check() not under contract. Known finding: build_heap on a non-empty addressable heap leaves stale handles.'),
+ 'C11': ('per-call monitor contracts: Semaphore::signal / wait / try_acquire and ThreadBarrierMutex::wait over all size_t values with mutex = ghost flag and condition_variable::wait = havoc of the protected state under the lock',
+         'SAFETY FRAGMENT ONLY: the schedule clauses of C11 (no stranded waiter, token conservation and barrier generations as whole-execution properties, ThreadBarrierSpin) are NOT decided by this technique. Bounded: at most 2 wake-ups per blocking call. Known finding: wait(delta, slack) when delta + slack wraps.'),
+ 'C17': ('every SplayTree operation (insert, erase, exists, find, clear, clear+reuse, destructor, traversal) enforced from an arbitrary valid search tree incl. the empty tree, for set and multiset mode; multiplicity by ghost key, node ledger',
+         'Bounded: trees of <= 3 nodes (4 in thorough). LruCacheSet / LruCacheMap are NOT under contract. Assert-mode enforcement (assigns not checked).'),
+ 'C14': ('layered contracts per digest: constructor == standard H0; process() == stream-to-block contract (blocks fed are the consecutive slices of buffer ++ data, tail buffered, length counts compressed bits) with the compression function abstracted by a logging stub and a ghost stream offset; finalize() == standard padding for every curlen_; compression == transcription of RFC 1321 / FIPS 180-4 in the thorough tier',
+         'Bounded: one process() call <= two blocks + 7 bytes. Reference text spec/digest_spec.h (constants generated from definitions, validated against hashlib each run). digest_hex wrappers and SipHash not under contract. Assert-mode enforcement for process/finalize.'),
+ 'C01': ('insert, erase_one, erase(key), exists, count, find, lower/upper_bound, begin/end, iterator ++/--, clear/destructor of btree_set / btree_multiset enforced from an arbitrary well-formed tree of depth <= 2 against the view (count of a ghost key, rank in leaf-chain order)',
+         'Bounded: leaf/inner slots 4/4, depth <= 2 before and after (no growth to depth 3, no inner-level rebalancing), 8-bit keys, set/multiset only. map/multimap, erase(iterator), copy/assign/swap/bulk_load/comparisons not under contract. Assert-mode enforcement; pointer and bounds checks only.'),
+ 'C02': ('the same jobs as C01: the verify()-conditions as representation invariant (uniform depth, fill, order, separators, leaf chain, stats) after every mutating operation, and the node allocation ledger (live blocks == nodes; freed nodes never touched)',
+         'Bounded as C01: slots 4/4, depth <= 2, set/multiset over 8-bit keys; element types with non-trivial lifetimes not covered.'),
+ 'C05': ('the property statement as contract of every entry point and algorithm variant: returns target+size, inputs advanced by size in total and within range, output ordered (stable: ties in (sequence, position) order), output == exactly the taken elements, nothing smaller left behind; tagged elements and ghost indices',
+         'Bounded: k <= 5 sequences of length <= 2 (3 for k <= 2). Assert-mode enforcement.'),
  'C09': ('tournament invariant (replayed bottom-up from the stored losers) established by construction and preserved by delete_min_insert from every well-formed state, for all 8 classes; the invariant implies the winner property (lemma job)',
          'Bounded configuration k <= 8 players; histories unbounded by induction. Unguarded variants under their documented precondition.'),
 }
 # properties whose checks have been run to completion on the unchanged tree (exit 0); extend as checks are validated
-CLAIMED = ['C09', 'C12', 'C15', 'C16', 'C18', 'C20']
+CLAIMED = ['C09', 'C11', 'C12', 'C15', 'C16', 'C18', 'C20']
 
 def main():
     props = [json.loads(l) for l in open(os.path.join(here, 'properties.jsonl'))]
